@@ -63,6 +63,7 @@ func main() {
 			"an empty gcaPubKey.dat placed before the first start stands for the residue of a crash during a registration that never completed; such a server counts as unregistered",
 			"a registration issued while a directory occupies the path gcaPubKey.dat (write fault injected from outside, removed right after the call) may be refused; whatever it answers, the model state, the server's key state and every later answer must agree",
 			"a registration issued under RLIMIT_FSIZE = 1..31 (process wide, restored right after the call, SIGXFSZ ignored) has its key file write cut short; it may be refused and may leave bytes in gcaPubKey.dat (counted, not judged, and no restart happens in that state); the next accepted registration must leave exactly its 32 bytes, also after restarts",
+			"transient fault: a directory occupies gcaPubKey.dat when the first valid registration arrives and is removed by the harness when that call has returned or after 80-250 ms (timing only decides what is exercised); the first registration may be refused, a second valid one follows at once",
 			"a migration order is well formed only if the server entries it lists are signed by the NewGCA it names; an order signed by the registered key whose list re-uses entries signed by another key is expected to be refused",
 			"the all-zero key is a legitimate GCA key (one sequential history in five registers it, one concurrent batch in five has it among the candidates); nobody can sign for it, so after it is registered nothing at all is honoured",
 			"records that name an existing server key are judged by their effect on the server list (snapshot and GET), not by the HTTP status; what the registered key itself may change about an existing entry is C17's subject, here only a ban by it must take effect",
@@ -97,6 +98,9 @@ func main() {
 			c.Require("seq.winner_is_zero_key", 3)
 			c.Require("seq.failed_persist_registration_refused", 3)
 			c.Require("seq.cut_write_registrations", 3)
+			c.Require("transient.trials", 6)
+			c.Require("transient.winners.1", 6)
+			c.Require("copied_signature.altered_orders_refused", 20)
 			c.Require("laundering.orders_with_foreign_list_accepted", 5)
 			c.Require("laundering.foreign_entries_refused", 10)
 			c.Require("laundering.orders_reusing_own_entries_refused", 5)
@@ -843,6 +847,9 @@ func child(b run.Batch, r *ev.Result) {
 		for i := 0; i < b.N && r.NumViolations() < 5; i++ {
 			seqHistory(b, r, sink, i)
 		}
+		for i := 0; i < 2 && r.NumViolations() < 5; i++ {
+			transientFault(b, r, sink, i)
+		}
 	case "conc":
 		for i := 0; i < b.N && r.NumViolations() < 5; i++ {
 			concBatch(b, r, sink, i)
@@ -1183,6 +1190,9 @@ func seqHistory(b run.Batch, r *ev.Result, sink uint16, idx int) {
 		if !x.existingServerProbes(winner, losers[0]) {
 			return
 		}
+		if !x.copiedSignatureProbes(winner) {
+			return
+		}
 	}
 	// everything again after a restart: replays of every registration seen so far
 	if !x.restart() {
@@ -1423,6 +1433,148 @@ func (x *ctx) existingServerProbes(winner, loser refenc.Key) bool {
 	}
 	x.inspect("after laundering attempts")
 	return !x.bad
+}
+
+// copiedSignatureProbes: a genuine order of the registered GCA for an authorized device is accepted; orders
+// for the same device that differ in NewGCA / NewShortID / server list but carry the COPIED signature of the
+// genuine one are not signed by anybody and must be refused; the order held for the device must stay
+// bit-identical in the server state and in what the device is told over the sync connection.
+func (x *ctx) copiedSignatureProbes(winner refenc.Key) bool {
+	g := x.g
+	ac := g.order("auth", &winner, "registered-gca", "valid")
+	if !x.judge(0, ac) {
+		return false
+	}
+	dev := ac.Auth
+	ng, ng2 := refenc.GenKey(g.rng), refenc.GenKey(g.rng)
+	entry := func(k refenc.Key) refenc.AuthServer {
+		return refenc.AuthServer{Pub: refenc.GenKey(g.rng).Pub, Location: "127.0.0.1", HTTP: g.sink, TCP: uint16(1 + g.rng.Intn(60000)), UDP: uint16(1 + g.rng.Intn(60000))}.Signed(k.Priv)
+	}
+	genuine := refenc.Migration{Equipment: dev.Pub, NewGCA: ng.Pub, NewID: uint32(1 + g.rng.Intn(1<<20)), Servers: []refenc.AuthServer{entry(ng)}}.Signed(winner.Priv)
+	if !x.judge(0, &call{Kind: "migrate", Label: "registered-gca/valid-for-authorized-device", Path: "/api/v1/equipment-migrate", Body: genuine.JSON(), Signed: true, Signer: winner.Pub}) {
+		return false
+	}
+	type held struct {
+		stored []byte
+		ok     bool
+		sync   string
+		syncOK bool
+	}
+	observe := func() held {
+		var h held
+		if m, ok := x.srv.S.VerifSnapshot(false).Migrations[dev.Pub]; ok {
+			rm := refenc.Migration{Equipment: m.Equipment, NewGCA: m.NewGCA, NewID: m.NewShortID, Sig: m.Signature}
+			for _, sv := range m.NewServers {
+				rm.Servers = append(rm.Servers, refenc.AuthServer{Pub: sv.PublicKey, Banned: sv.Banned, Location: sv.Location, HTTP: sv.HttpPort, TCP: sv.TcpPort, UDP: sv.UdpPort, Sig: sv.GCAAuthorization})
+			}
+			h.stored, h.ok = rm.Bytes(), true
+		}
+		if rep, refused, err := x.srv.Sync(dev.ID); err == nil && !refused {
+			var sb []byte
+			for _, sv := range rep.Servers {
+				sb = append(sb, sv.Bytes()...)
+			}
+			h.sync, h.syncOK = fmt.Sprintf("%x/%d/%x/%x", rep.NewGCA, rep.NewID, sb, rep.MigSig), true
+		}
+		return h
+	}
+	before := observe()
+	if !before.ok || !bytes.Equal(before.stored, genuine.Bytes()) {
+		x.violation("accepted-order-not-held-as-submitted", map[string]interface{}{"order": string(genuine.JSON())}, "the order accepted for device %d is not held bit-identical in the server state", dev.ID)
+		return false
+	}
+	if before.syncOK {
+		x.r.Count("copied_signature.sync_replies_compared", 1)
+	}
+	variants := map[string]refenc.Migration{}
+	v := genuine
+	v.NewID++
+	variants["new-short-id"] = v
+	v = genuine
+	v.Servers = append(append([]refenc.AuthServer(nil), genuine.Servers...), entry(ng))
+	variants["server-list"] = v
+	v = genuine
+	v.NewGCA, v.Servers = ng2.Pub, nil
+	variants["new-gca"] = v
+	v = genuine
+	v.NewGCA, v.NewID, v.Servers = ng2.Pub, genuine.NewID+7, []refenc.AuthServer{entry(ng2)}
+	variants["all"] = v
+	for _, name := range []string{"new-short-id", "server-list", "new-gca", "all"} {
+		alt := variants[name] // carries the copied signature of the genuine order
+		if !x.judge(0, &call{Kind: "migrate", Label: "copied-signature/" + name, Path: "/api/v1/equipment-migrate", Body: alt.JSON()}) {
+			return false
+		}
+		after := observe()
+		if !after.ok || !bytes.Equal(after.stored, before.stored) || (before.syncOK && after.syncOK && after.sync != before.sync) {
+			x.violation("held-order-replaced-by-order-with-copied-signature:"+name, map[string]interface{}{"genuine": string(genuine.JSON()), "altered": string(alt.JSON())},
+				"an order with altered %s and the copied signature of the held order changed what is held for device %d", name, dev.ID)
+			return false
+		}
+		x.r.Count("copied_signature.altered_orders_refused", 1)
+	}
+	// the genuine order itself, resubmitted, is still the registered key's order
+	if !x.judge(0, &call{Kind: "migrate", Label: "registered-gca/valid-resubmitted", Path: "/api/v1/equipment-migrate", Body: genuine.JSON(), Signed: true, Signer: winner.Pub}) {
+		return false
+	}
+	x.inspect("after orders with a copied signature")
+	return !x.bad
+}
+
+// transientFault: the key file cannot be written when the first valid registration arrives (a directory
+// occupies its path) and becomes writable shortly afterwards, when a second valid registration for another
+// key is submitted while the first may still be in progress. Whatever the server does about the fault, at
+// most one registration may ever be answered 200 and file, memory and later answers must agree with it.
+func transientFault(b run.Batch, r *ev.Result, sink uint16, idx int) {
+	x, err := newCtx(b, r, sink, fmt.Sprintf("transient%d", idx), b.Seed+int64(idx)*7717+13)
+	if err != nil {
+		r.Inconc("cannot prepare server directory: " + err.Error())
+		return
+	}
+	defer x.close()
+	if err := x.srv.Start(); err != nil {
+		r.Inconc("server start: " + err.Error())
+		return
+	}
+	g := x.g
+	cands := []refenc.Key{refenc.GenKey(g.rng), refenc.GenKey(g.rng)}
+	ra := g.register(cands[0].Pub, g.temp, "temp", "valid")
+	ra.Faulted, ra.Label = true, "temp/valid-key-file-unwritable-at-first"
+	rb := g.register(cands[1].Pub, g.temp, "temp", "valid")
+	path := filepath.Join(x.srv.Dir, "gcaPubKey.dat")
+	if err := os.Mkdir(path, 0755); err != nil {
+		r.Inconc("cannot inject the write fault: " + err.Error())
+		return
+	}
+	wait := time.Duration(80+g.rng.Intn(170)) * time.Millisecond
+	run.Op("%s first registration with unwritable key file; fault removed after it returned or after %v; then second registration", x.name, wait)
+	x.start = time.Now()
+	doneA := make(chan rec, 1)
+	go func() { doneA <- x.do(0, ra) }()
+	var recA rec
+	returned := false
+	select {
+	case recA = <-doneA:
+		returned = true
+	case <-time.After(wait):
+	}
+	os.Remove(path)
+	recB := x.do(1, rb)
+	if !returned {
+		recA = <-doneA
+		r.Count("transient.first_registration_still_open_when_fault_was_removed", 1)
+	}
+	r.Eval(1)
+	r.Count("transient.trials", 1)
+	r.Count("transient.first_registration."+outName[recA.Out], 1)
+	r.Count("transient.second_registration."+outName[recB.Out], 1)
+	if recA.Call <= recB.Ret && recB.Call <= recA.Ret {
+		r.Count("transient.registrations_overlapped", 1)
+		r.Nontrivial(fmt.Sprintf("transient/%d/%d", b.Seed, idx))
+	}
+	if x.settle("transient.") {
+		x.afterwards(2, cands, "transient.")
+	}
+	x.linearizable(10 * time.Second)
 }
 
 // ---------------------------------------------------------------- afterwards (shared by conc and delay)
